@@ -197,6 +197,25 @@ def run_prop(chk: Check, which: str) -> None:
                 if counts != want or counts[1] > limit_of(ep.calls[1]):
                     chk.violation("c08.exact_budget_queue", f"max_retries {mr_a}/{mr_b}/{mr_c}, the second caller gives up after {b_timeout} s: "
                                   f"transmissions per command {counts}, expected {want}", {"episode": ep.to_json()})
+        # echoed every time, never answered, the reply being awaited: sent exactly 1 + min(max_retries, 3) times
+        for mr in range(0, 6):
+            for cmd, wfr, mode in ((0, True, False), (4, True, False), (5, None, None), (8, None, None), (5, True, False), (1, True, None)):
+                for echo in (0.02, 0.1, 0.45):
+                    ep = qos.Episode()
+                    ep.mode = mode
+                    ep.calls = [{"t": 0.0, "cmd": cmd, "prio": 0, "max_retries": mr, "timeout": 20.0, "wfr": wfr}]
+                    for nn in range(1, 12):
+                        ep.tx[(cmd, nn)] = {"echo": echo, "reply": None, "dup": False, "fail": False}
+                    res = qos.run_episode(ep)
+                    chk.evaluations += 1
+                    score_c08(chk, ep, res)
+                    from . import qos_model
+                    if not qos_model.need_reply(mode, qos.POOL[cmd][0], wfr):
+                        continue
+                    n_tx = sum(1 for i in res.write_calls if i == 0)
+                    if n_tx != limit_of(ep.calls[0]):
+                        chk.violation("c08.exact_budget_unanswered", f"max_retries={mr}, echoed after {echo} s every time, never answered (reply awaited): "
+                                      f"{n_tx} transmissions, expected {limit_of(ep.calls[0])}", {"episode": ep.to_json()})
         for mr in range(0, 6):
             for timeout in (20.0, 30.0, 7.5, 5.0, 3.5, 1.0, 0.4):
                 for cmd in (0, 4, 7):
